@@ -11,6 +11,8 @@ package main
 import "strings"
 
 type preinst struct {
+	tiny bool
+	focusSyms []*Term
 	pairs     bool // also instantiate two-variable quantifiers (second attempt)
 	pairsOnly bool
 	hints     []*Term
@@ -23,7 +25,7 @@ type preinst struct {
 }
 
 func collectCandidates(all []*Term, focus []*Term) *preinst {
-	p := &preinst{strs: map[string][]*Term{}, apps: map[string][][]*Term{}, limit: 1500, seen: map[string]bool{}}
+	p := &preinst{strs: map[string][]*Term{}, apps: map[string][][]*Term{}, limit: 2500, seen: map[string]bool{}}
 	bound := map[string]bool{}
 	for _, a := range all {
 		a.Walk(func(x *Term) {
@@ -170,18 +172,33 @@ func (p *preinst) walk(ctx []*Term, t *Term, depth int) {
 		}
 	case "=>":
 		p.walk(append(append([]*Term{}, ctx...), t.Args[0]), t.Args[1], depth)
+	case "or":
+		// A \/ (forall ...)  ==  ~A => forall ...
+		var q []*Term
+		var rest []*Term
+		for _, a := range t.Args {
+			if hasQuantStrict(a) {
+				q = append(q, a)
+			} else {
+				rest = append(rest, a)
+			}
+		}
+		if len(q) == 1 {
+			p.walk(append(append([]*Term{}, ctx...), Not(Or(rest...))), q[0], depth)
+		}
 	case "forall":
 		if len(t.Bound) == 2 && t.Bound[0].S == SInt && t.Bound[1].S == SInt && p.pairs {
 			// two integer variables: pairs of the skolem constants (and their
 			// successors), which is what distinctness / ordering facts need
 			var cs []*Term
 			cs = append(cs, p.hints...)
+			cs = append(cs, p.focusSyms...)
 			nsk := 0
 			for _, c := range p.ints {
 				if c.IsSym && len(c.Args) == 0 && strings.HasPrefix(c.Op, "sk.") && nsk < 6 {
 					nsk++
 					cs = append(cs, c)
-					if c.IsSym && len(c.Args) == 0 {
+					if c.IsSym && len(c.Args) == 0 && !p.tiny {
 						cs = append(cs, Add(c, IntLit(1)))
 					}
 				}
@@ -286,10 +303,23 @@ func hasQuantStrict(t *Term) bool {
 	return found
 }
 
-func preInstantiate(D *Decls, asserts []*Term, focus []*Term, withPairs bool, hints []*Term) []*Term {
+func preInstantiate(D *Decls, asserts []*Term, focus []*Term, withPairs bool, hints []*Term, tiny bool) []*Term {
 	all := append(append([]*Term{}, asserts...), focus...)
 	p := collectCandidates(all, focus)
+	if tiny {
+		p.limit = 350
+	}
 	p.pairs = withPairs
+	// pointer-like constants the goal itself mentions (pair candidates)
+	fs := map[string]bool{}
+	for _, f := range focus {
+		f.Walk(func(x *Term) {
+			if x.IsSym && len(x.Args) == 0 && x.S == SInt && !strings.HasPrefix(x.Op, "sk.") && !strings.HasPrefix(x.Op, "$") && !strings.HasPrefix(x.Op, "w.") && len(p.focusSyms) < 6 && !fs[x.Op] {
+				fs[x.Op] = true
+				p.focusSyms = append(p.focusSyms, x)
+			}
+		})
+	}
 	hs := map[string]bool{}
 	for _, h := range hints {
 		if k := h.String(); !hs[k] {
@@ -341,12 +371,41 @@ func preInstantiate(D *Decls, asserts []*Term, focus []*Term, withPairs bool, hi
 	p.engineInstances(all) // first: these must not fall victim to the instance limit
 	// one-variable instances first; pair instances (many) afterwards so that
 	// they cannot crowd the former out of the instance budget
+	// Candidates are tried in priority order (hints and the goal's own
+	// constants first) across *all* quantified hypotheses before the next
+	// batch, so that late hypotheses are not starved by the instance budget.
 	p.pairs = false
-	for _, a := range asserts {
-		if hasQuantStrict(a) {
-			p.walk(nil, a, 0)
+	allInts := p.ints
+	batches := []int{6, 16, len(allInts)}
+	if tiny {
+		batches = []int{8}
+	}
+	for _, n := range batches {
+		if n > len(allInts) {
+			n = len(allInts)
+		}
+		p.ints = allInts[:n]
+		for _, a := range asserts {
+			if hasQuantStrict(a) {
+				p.walk(nil, a, 0)
+			}
+		}
+		if n == len(allInts) {
+			break
 		}
 	}
+	if tiny {
+		p.pairs, p.pairsOnly, p.tiny = true, true, true
+		p.limit += 700
+		for _, a := range asserts {
+			if hasQuantStrict(a) {
+				p.walk(nil, a, 0)
+			}
+		}
+		p.engineInstances(append(append([]*Term{}, all...), p.out...))
+		return p.out
+	}
+	p.ints = allInts
 	if withPairs {
 		p.pairs, p.pairsOnly = true, true
 		p.limit += 2500
